@@ -5,7 +5,10 @@ real run : the REAL transports (SocketStreamTransport with / without sendmsg, SS
            StreamEndpoint.send_packet / send_all_from_iterable / send_all, over a scripted socket (partial writes,
            EAGAIN/EINTR, SSL want-read/-write, connection errors, zero-length sends), a scripted selector and a virtual
            clock (vlib/c04_env.py).  Additional oracle-only cases: real OpenSSL (SSLStreamTransport over a socketpair,
-           AsyncTLSStreamTransport over an in-memory transport) and the asyncio socket adapter (vlib/c04_async.py).
+           AsyncTLSStreamTransport over an in-memory transport) and the asyncio socket adapter (vlib/c04_async.py);
+           every send path of the asyncio adapter (send_all, send_all_from_iterable, AsyncStreamEndpoint.send_packet,
+           AsyncTCPNetworkClient.send_packet) on a loopback TCP connection after the peer's RST / FIN / half-close or
+           our own aclose(): a send that can transmit nothing must raise, never return (vlib/c04_aiofault.py).
 model run: the same chunk list and scripts through the Lean model (Model/Retry.lean, Model/Send.lean) via endriver.
 oracle   : bytes read by the peer are a prefix of the concatenation of the chunks (== it when the call returned),
            the call ended by itself (return / TimeoutError / connection error — never by using up the environment
@@ -55,10 +58,13 @@ ASSUMPTIONS = [
 RULE = (
     "case = transport (sendmsg | no sendmsg | TLS) x SC_IOV_MAX x entry point (send_packet | send_all_from_iterable | send_all) x chunk list "
     "(empty chunks in any position, bytes/bytearray/memoryview/multi-byte memoryview) x timeout x retry_interval x socket script x selector script; "
-    "non-trivial = a partial write, a would-block, an error or an empty chunk occurred; distinct by full case digest"
+    "non-trivial = a partial write, a would-block, an error or an empty chunk occurred; distinct by full case digest; "
+    "plus oracle-only cases on real sockets / OpenSSL / asyncio, among them every send path of the asyncio adapter x fault "
+    "(peer RST, FIN, half-close, own aclose, none) x noticed by the event loop before the send or not x sends in a row"
 )
 
-REAL_KINDS = ("realsock", "openssl", "atls", "aio")   # oracle-only cases on real sockets / OpenSSL / asyncio (vlib/c04_async.py)
+REAL_KINDS = ("realsock", "openssl", "atls", "aio", "aiofault")   # oracle-only cases on real sockets / OpenSSL / asyncio
+#            (vlib/c04_async.py; "aiofault" = asyncio adapter send paths after RST / FIN / aclose: vlib/c04_aiofault.py)
 _FIX: bool | None = None
 
 
@@ -140,6 +146,10 @@ def make_transport(tr: str, ri: float, w: env.World, a: socket.socket):
 
 
 def run_real(case: dict) -> list[str]:
+    if case.get("kind") == "aiofault":
+        from vlib import c04_aiofault
+
+        return c04_aiofault.run_real(case)
     if case.get("kind") in REAL_KINDS:
         from vlib import c04_async
 
@@ -218,6 +228,10 @@ def _get(real: list[str], prefix: str) -> str | None:
 
 
 def oracle(case: dict, real: list[str]) -> str | None:
+    if case.get("kind") == "aiofault":
+        from vlib import c04_aiofault
+
+        return c04_aiofault.oracle(case, real)
     if case.get("kind") in REAL_KINDS:
         from vlib import c04_async
 
@@ -288,6 +302,10 @@ def oracle(case: dict, real: list[str]) -> str | None:
 
 
 def nontrivial(case: dict, real: list[str]) -> str | None:
+    if case.get("kind") == "aiofault":
+        from vlib import c04_aiofault
+
+        return c04_aiofault.nontrivial(case, real)
     if case.get("kind") in REAL_KINDS:
         return case["kind"]
     calls = [ln for ln in real if ln.startswith("call ")]
@@ -308,6 +326,11 @@ def nontrivial(case: dict, real: list[str]) -> str | None:
 
 
 def shrink(case: dict):
+    if case.get("kind") == "aiofault":
+        from vlib import c04_aiofault
+
+        yield from c04_aiofault.shrink(case)
+        return
     if case.get("kind") in REAL_KINDS:
         n = len(case["chunks"])
         for i in range(n if n > 1 else 0):   # never down to "no chunk at all": that is a different failure
@@ -343,6 +366,10 @@ def shrink(case: dict):
 
 
 def known_key(case: dict, real: list[str], why: str) -> str:
+    if case.get("kind") == "aiofault":
+        from vlib import c04_aiofault
+
+        return c04_aiofault.known_key(case, real, why)
     if case.get("kind") in REAL_KINDS:
         if case["kind"] == "aio" and "close hang" in real and "-" in case["chunks"]:
             return "path=asyncio-adapter,empty-buffer-left-in-transport,spin"
@@ -382,10 +409,15 @@ def _case(tr, entry, chunks, sock, sel, timeout=None, ri=None, iov=1024, kinds=N
 def corpus() -> list[dict]:
     cs = []
     # the same critical chunk lists on the real kernel / OpenSSL / asyncio (oracle only)
-    for kind in REAL_KINDS:
+    for kind in ("realsock", "openssl", "atls", "aio"):
         for chunks in (["616263", "-"], ["-"], ["-", "6162", "-", "63", "-"], []):
             cs.append({"kind": kind, "chunks": chunks, "kinds": ["b"] * len(chunks), "seed": 7, "entry": "iterable",
                        "timeout": None, "sendmsg": True})
+    # every send path of the asyncio adapter after the peer's RST / FIN / half-close / our own aclose(), the fault noticed
+    # by the event loop before the send or not (oracle only)
+    from vlib import c04_aiofault
+
+    cs.extend(c04_aiofault.corpus())
     for tr in ("sendmsg", "join", "tls"):
         # F2: trailing empty chunk, lone empty chunk, only empty chunks, no chunk at all — with and without a timeout
         cs.append(_case(tr, "iterable", [b"abc", b""], [], []))
@@ -476,9 +508,10 @@ def generate(rng, tier: str, boost: int):
         entry = rng.choice(["packet", "iterable", "iterable", "all"])
         sock, sel = gen_scripts(rng, tr, total, timeout, ri)
         yield _case(tr, entry, chunks, sock, sel, timeout, ri, iov, kinds)
-    from vlib import c04_async
+    from vlib import c04_async, c04_aiofault
 
     yield from c04_async.generate(rng, tier, boost)
+    yield from c04_aiofault.generate(rng, tier, boost)
 
 
 def extra_coverage(stats) -> dict:
